@@ -164,10 +164,134 @@ func clipS(s string) string {
 	return s
 }
 
-// AuxLayout: line-oriented auxiliary files (*.txt: tip lists, maps, groups, states) are written
+// WriteIn writes an input file of a command in the layout AuxLayout chooses for it.
+func WriteIn(dir, name, content string) string {
+	return Write(dir, name, AuxLayout(name, content))
+}
+
+// TreesLayout lays out a text of Newick trees (one per line, as the checks write them) the way
+// files met in practice are: CRLF line ends, a tab or blanks after the ';', trees wrapped over
+// several lines, empty lines between trees, no final end-of-line, and - the reader works through
+// a 4096-byte buffer - one tree whose text up to its ';' fills a whole number of buffers (blanks
+// after its first ',' bring it to that length), alone or followed by a blank. The layout is
+// chosen from the content (a case replays identically); half of the texts stay as they are.
+// Lines that do not end with ';' (records damaged on purpose) are left alone.
+func TreesLayout(content string) string {
+	if !strings.HasPrefix(content, "(") || !strings.HasSuffix(content, "\n") || strings.Contains(content, "\r") {
+		return content
+	}
+	h := uint32(2166136261)
+	for i := 0; i < len(content); i++ {
+		h = (h ^ uint32(content[i])) * 16777619
+	}
+	lines := strings.Split(strings.TrimSuffix(content, "\n"), "\n")
+	for _, l := range lines {
+		if strings.TrimSpace(l) == "" {
+			return content
+		}
+	}
+	kind := h % 20
+	sel := int((h / 20) % uint32(len(lines)))
+	nl, after, between, final := "\n", "", "", true
+	pad := func(extra string) {
+		l := lines[sel]
+		c := firstComma(l)
+		if !strings.HasSuffix(l, ";") || c < 0 {
+			return
+		}
+		n := (4096 - len(l)%4096) % 4096
+		lines[sel] = l[:c+1] + strings.Repeat(" ", n) + l[c+1:] + extra
+	}
+	switch kind {
+	case 0:
+		nl = "\r\n"
+	case 1:
+		after = "\t"
+	case 2:
+		after = " \t "
+	case 3:
+		pad("")
+	case 4:
+		pad(" ")
+	case 5:
+		pad("")
+		nl = "\r\n"
+	case 6, 7:
+		if kind == 7 {
+			nl = "\r\n"
+		}
+		for i, l := range lines {
+			lines[i] = wrapAfterCommas(l, nl)
+		}
+	case 8:
+		final = false
+	case 9:
+		between = nl
+	case 10:
+		pad("\t")
+		final = false
+	default:
+		return content
+	}
+	var b strings.Builder
+	for i, l := range lines {
+		b.WriteString(l)
+		if strings.HasSuffix(l, ";") {
+			b.WriteString(after)
+		}
+		if i < len(lines)-1 || final {
+			b.WriteString(nl)
+		}
+		if i < len(lines)-1 {
+			b.WriteString(between)
+		}
+	}
+	return b.String()
+}
+
+// firstComma: position of the first ',' outside [comments] (-1: none).
+func firstComma(l string) int {
+	in := false
+	for i := 0; i < len(l); i++ {
+		switch {
+		case in:
+			in = l[i] != ']'
+		case l[i] == '[':
+			in = true
+		case l[i] == ',':
+			return i
+		}
+	}
+	return -1
+}
+
+func wrapAfterCommas(l, nl string) string {
+	var b strings.Builder
+	in, k := false, 0
+	for i := 0; i < len(l); i++ {
+		b.WriteByte(l[i])
+		switch {
+		case in:
+			in = l[i] != ']'
+		case l[i] == '[':
+			in = true
+		case l[i] == ',':
+			k++
+			if k%2 == 1 {
+				b.WriteString(nl)
+			}
+		}
+	}
+	return b.String()
+}
+
+// AuxLayout: tree files (*.nw holding Newick text) get one of the layouts of TreesLayout; line-oriented auxiliary files (*.txt: tip lists, maps, groups, states) are written
 // with CRLF line ends in a third of the cases and without their final end-of-line in half of the cases (chosen from the content, so that a case
 // replays identically): the last line counts like the others.
 func AuxLayout(name, content string) string {
+	if strings.HasSuffix(name, ".nw") {
+		return TreesLayout(content)
+	}
 	if !strings.HasSuffix(name, ".txt") {
 		return content
 	}
